@@ -141,39 +141,51 @@ def lrGotoOf (T : LRTables) (s a : Nat) : Option Nat := (T.rows[s]?).bind (fun r
     lasts as long as `s` stays on the stack — it never looks below `s`, so it is a function of
     `(t, s, q)` alone. `out = none`: the parser stops reducing (shift, accept, error) with `s` still
     stacked; `out = some (b, j)`: a reduction to `b` pops everything above `s`, `s` itself and `j`
-    more states. `cost`: (an upper bound of) the number of reductions it takes. -/
+    more states. `cost`: (an upper bound of) the number of reductions it takes; `maxc` bounds all
+    costs. -/
 structure LRSumm where
   out : Nat → Nat → Nat → Option (Nat × Nat)
   cost : Nat → Nat → Nat → Nat
+  maxc : Nat
+
+/-- The summary entries as they are used: a state that does not reduce on `t` stops at once. -/
+def LRSumm.outOf (S : LRSumm) (T : LRTables) (t s q : Nat) : Option (Nat × Nat) :=
+  if (lrRedOf T t q).isSome then S.out t s q else none
+
+def LRSumm.costOf (S : LRSumm) (T : LRTables) (t s q : Nat) : Nat :=
+  if (lrRedOf T t q).isSome then S.cost t s q else 0
 
 /-- One unfolding of `Comp t s q` is consistent with the summaries:
     * `q` reduces a production of length ≥ 2: return at once;
     * length 1: continue as `Comp t s (goto s a)`;
-    * length 0 (`q1 = goto q a` is pushed): run `Comp t q q1`; if that returns by popping just `q`,
-      continue as `Comp t s (goto s b)`, if it pops more, return. -/
+    * length 0 (`q1 = goto q a` is pushed): run `Comp t q q1`; if that stops, stop; if it returns by
+      popping just `q`, continue as `Comp t s (goto s b)`; if it pops more, return. -/
 def summCond (T : LRTables) (S : LRSumm) (t s q : Nat) : Bool :=
   match lrRedOf T t q with
   | none => true
   | some (a, k) =>
+    decide (S.cost t s q ≤ S.maxc) &&
     match k with
     | 0 =>
       match lrGotoOf T q a with
       | none => true
       | some q1 =>
-        decide (S.cost t q q1 + 1 ≤ S.cost t s q) &&
-        match S.out t q q1 with
-        | none => true
+        decide (S.costOf T t q q1 + 1 ≤ S.cost t s q) &&
+        match S.outOf T t q q1 with
+        | none => S.out t s q == none
         | some (b, j) =>
           match j with
           | 0 =>
             match lrGotoOf T s b with
             | none => true
-            | some g => S.out t s q == S.out t s g && decide (S.cost t q q1 + S.cost t s g + 1 ≤ S.cost t s q)
+            | some g =>
+              S.out t s q == S.outOf T t s g &&
+              decide (S.costOf T t q q1 + S.costOf T t s g + 1 ≤ S.cost t s q)
           | j + 1 => S.out t s q == some (b, j)
     | 1 =>
       match lrGotoOf T s a with
       | none => true
-      | some g => S.out t s q == S.out t s g && decide (S.cost t s g + 1 ≤ S.cost t s q)
+      | some g => S.out t s q == S.outOf T t s g && decide (S.costOf T t s g + 1 ≤ S.cost t s q)
     | k + 2 => S.out t s q == some (a, k) && decide (1 ≤ S.cost t s q)
 
 /-- States that can lie directly below `q` on the parser stack: its predecessors in the automaton;
@@ -224,12 +236,22 @@ def compF (T : LRTables) (t : Nat) : Nat → Nat → Nat → Option (Option (Nat
     revisits a pair, i.e. loops; its entries then fail `summCond`). -/
 def lrSummOf (T : LRTables) : LRSumm :=
   let F := (lrEdges T).length + 2
+  let cost := fun (t s q : Nat) => match compF T t F s q with
+      | some (_, c) => c
+      | none => 0
   ⟨fun t s q => match compF T t F s q with
       | some (o, _) => o
       | none => none,
-   fun t s q => match compF T t F s q with
-      | some (_, c) => c
-      | none => 0⟩
+   cost,
+   T.rows.zipIdx.foldl (fun m (row, q) =>
+     (lrBelow T q).foldl (fun m s => row.acts.foldl (fun m (t, _) => Nat.max m (cost t s q)) m) m) 0⟩
+
+/-- Explicit fuel bound for `lrRun` given consistent summaries with cost bound `C`:
+    `(|tokens| + 1) * (C² + 3 C + 1)`. -/
+def LRSumm.fuel (S : LRSumm) (toks : List MTok) : Nat :=
+  (toks.length + 1) * (S.maxc * S.maxc + 3 * S.maxc + 1)
+
+def lrSummFuel (T : LRTables) (toks : List MTok) : Nat := (lrSummOf T).fuel toks
 
 /-- **The checker**: no sequence of reductions without consuming input can go on forever, on any
     stack that is a path of the automaton. Exact at the level of the table: it fails iff some
@@ -243,7 +265,8 @@ def lrSummFirstBad (T : LRTables) (S : LRSumm) : Option (Nat × Nat × Nat) :=
       if summCond T S t s q then none else some (t, s, q)
 
 -- @handler lr-term-ok handleLRTermOk
-/-- `lr-term-ok <start> <prods> <rows> <gprods>` → `ok` iff `lrTableValid` and `lrNoReduceLoopB`;
+/-- `lr-term-ok <start> <prods> <rows> <gprods>` → `ok <C>` iff `lrTableValid` and `lrNoReduceLoopB`
+    (`C`: cost bound of the summaries; `(|tokens| + 1) * (C² + 3 C + 1)` steps suffice);
     otherwise `fail lr-table-not-valid` or `fail reduce-loop:<terminal>:<below>:<state>` (a stack top
     `below, state` and a lookahead from which the reductions need not end). -/
 def handleLRTermOk : List String → Option String
@@ -254,7 +277,7 @@ def handleLRTermOk : List String → Option String
     let gps ← parseRules gps
     let T : LRTables := ⟨st, ps, rs⟩
     if !lrTableValid T gps then some "fail lr-table-not-valid" else
-    if lrNoReduceLoopB T then some "ok" else
+    if lrNoReduceLoopB T then some s!"ok {(lrSummOf T).maxc}" else
     match lrSummFirstBad T (lrSummOf T) with
     | some (t, s, q) => some s!"fail reduce-loop:{t}:{s}:{q}"
     | none => some "fail reduce-loop"
